@@ -9,6 +9,7 @@ CONSTANTS Keys = {"a", "b"}
           MaxObj = 8
           Depth = 7
           KeepHist = TRUE
+          SetAdjs = {"f", "p", "m"}
           Fan = 4
 INIT Init
 NEXT NextGen
